@@ -484,7 +484,7 @@ func (h *harness) task(ti int) {
 
 		case "stop":
 			h.point("stop", si, nil)
-			if q := h.qs[st.Target]; q != nil {
+			if q := h.qs[st.Target]; q != nil && vnet.SignalDeliverable(q) {
 				select {
 				case q <- os.Interrupt:
 				default:
@@ -637,6 +637,11 @@ func (h *harness) listen(ti, si int, st *Step) {
 		h.sim.Go(-1-ti, fmt.Sprintf("task%02d/stopper%d", ti, si), 0, func() {
 			h.sim.SleepSim(st.StopAfter)
 			h.sim.Point("stop", -1, nil)
+			if !vnet.SignalDeliverable(q) {
+				// the library has told the OS (signal.Stop) not to deliver to the application's channel any more
+				h.sim.Point("stop-undeliverable", -1, nil)
+				return
+			}
 			select {
 			case q <- os.Interrupt:
 			default:
@@ -696,6 +701,14 @@ var (
 
 func toDate(d model.Date) types.Date {
 	if d.Zero {
+		switch d.ZK {
+		case 1:
+			return types.Date(time.Time{}.Local())
+		case 2:
+			return types.Date(time.Time{}.In(time.FixedZone("X", 3600)))
+		case 3:
+			return types.Date(time.Unix(-62135596800, 0))
+		}
 		return types.Date{}
 	}
 	var v types.Date
@@ -1303,6 +1316,14 @@ func cloneChecks(st *Step) string {
 	}
 	if !reflect.DeepEqual(d.Doors, want) {
 		return "Device.Clone shares the Doors slice with the original"
+	}
+	// an empty door list with spare capacity: what is appended to the clone's list must not show up behind the original's
+	backing := []string{"p", "q", "r"}
+	e := uhppote.Device{Name: "e", DeviceID: st.Args.Serial, Doors: backing[:0], TimeZone: zone, Protocol: proto}
+	ec := e.Clone()
+	ec.Doors = append(ec.Doors, "appended")
+	if backing[0] != "p" || len(e.Doors) != 0 {
+		return "Device.Clone shares the (empty) Doors slice's storage with the original"
 	}
 	return ""
 }
